@@ -385,3 +385,127 @@ def table6(ctx) -> List[Ob]:
         if need not in seen:
             out.append(bad("TABLE-6", bb.qualname, f"{need} case", ctx.where(bb), f"the {need} case of the successor computation is missing"))
     return out
+
+
+@rule("TABLE-7", 3, "census of the block boundaries: an offset becomes a block start only as the first instruction / a flagged jump target (the instruction's own offset) or as a recorded jump target (inside _add_jump_inst); every other writer can create a boundary that is no instruction start (an empty block, a block entered in its middle)")
+def table7(ctx) -> List[Ob]:
+    out: List[Ob] = []
+    prog = ctx.prog
+    fi = prog.cls("FlowInfo")
+    from .ctrl import _guard_conditions
+    from .common import expanded_function
+
+    n_sites = 0
+    for fn in prog.functions:
+        if fn.module.name.endswith("tests") or ".tests." in fn.module.name:
+            continue
+        xf = expanded_function(fn)
+        for n in A.walk_no_nested(xf):
+            site = what = None
+            if isinstance(n, ast.Call) and isinstance(n.func, ast.Attribute) and n.func.attr in ("add", "update", "discard", "remove", "clear", "difference_update", "intersection_update", "symmetric_difference_update", "pop") and isinstance(n.func.value, ast.Attribute) and n.func.value.attr == "block_offsets":
+                site, what = n, n.func.attr
+            elif isinstance(n, (ast.Assign, ast.AugAssign)):
+                tgs = n.targets if isinstance(n, ast.Assign) else [n.target]
+                if any(isinstance(t, ast.Attribute) and t.attr == "block_offsets" for t in tgs):
+                    site, what = n, "rebinding"
+            if site is None:
+                continue
+            n_sites += 1
+            key = "block start: " + A.alpha_key(site)
+            where = ctx.where(fn, site)
+            if what == "add" and fn.cls is fi and fn.name == "_add_jump_inst":
+                lp = next((a for a in A.ancestors(site) if isinstance(a, ast.For)), None)
+                tparams = [p.arg for p in fn.params if p.arg != "self"]
+                if lp is not None and len(tparams) > 1 and A.unparse(lp.iter) == tparams[1] and site.args and A.unparse(site.args[0]) == A.unparse(lp.target):
+                    out.append(ok("TABLE-7", fn.qualname, key, where, "each recorded jump target starts a block"))
+                    continue
+            if what == "add" and fn.cls is fi and fn.name == "from_bytecode" and site.args:
+                lp = next((a for a in A.ancestors(site) if isinstance(a, ast.For)), None)
+                inst = A.unparse(lp.target) if lp is not None else None
+                guards = _guard_conditions(xf, site)
+                arg = A.unparse(site.args[0])
+                if inst and arg == f"{inst}.offset" and len(guards) == 1 and guards[0][1] and set(x.strip() for x in guards[0][0].split(" or ")) == {f"{inst}.offset == 0", f"{inst}.is_jump_target"}:
+                    out.append(ok("TABLE-7", fn.qualname, key, where, "the instruction's own offset, when it is the first instruction or a flagged jump target"))
+                    continue
+            out.append(bad("TABLE-7", fn.qualname, key, where, f"{A.unparse(site)[:70]} changes the set of block boundaries outside the two audited forms: a boundary that is not the offset of an instruction (past the end of the code, inside an inline cache) gives an empty block or a block entered in its middle"))
+    if n_sites < 2:
+        raise AnalysisError("TABLE-7: fewer than two writers of block_offsets found")
+    # the jump table answers `offset in jump_insts` by absence: it must be a plain dict that only _add_jump_inst writes
+    fld = next((f for f in fi.fields() if f.name == "jump_insts"), None)
+    key = "jump table is a plain dict"
+    if fld is None:
+        raise AnalysisError("FlowInfo.jump_insts not found")
+    d = fld.default
+    fac = None
+    if isinstance(d, ast.Call) and (A.dotted(d.func) or "").split(".")[-1] == "field":
+        fac = kw(d, "default_factory")
+    plain = isinstance(fac, ast.Name) and fac.id == "dict" or (isinstance(fac, ast.Lambda) and isinstance(fac.body, ast.Dict) and not fac.body.keys) or (isinstance(fac, ast.Lambda) and isinstance(fac.body, ast.Call) and A.unparse(fac.body) == "dict()")
+    wherec = f"{fi.module.relpath}:{A.lineno(d) if d is not None else A.lineno(fi.node)}"
+    if plain:
+        out.append(ok("TABLE-7", "FlowInfo", key, wherec, "default_factory=dict: a lookup never inserts, `offset in jump_insts` means 'a jump was recorded'"))
+    else:
+        out.append(bad("TABLE-7", "FlowInfo", key, wherec, f"jump_insts is created by {A.unparse(fac)[:50] if fac is not None else 'no factory'}: a container that inserts on lookup (defaultdict) makes `term_offset in jump_insts` true for every offset that was merely read, and fall-through blocks lose their successor"))
+    for fn in prog.functions:
+        for n in A.walk_no_nested(fn.node):
+            wr = None
+            if isinstance(n, (ast.Assign, ast.AugAssign, ast.Delete)):
+                tgs = n.targets if isinstance(n, (ast.Assign, ast.Delete)) else [n.target]
+                for t in tgs:
+                    if isinstance(t, ast.Subscript) and isinstance(t.value, ast.Attribute) and t.value.attr == "jump_insts":
+                        wr = n
+                    elif isinstance(t, ast.Attribute) and t.attr == "jump_insts":
+                        wr = n
+            elif isinstance(n, ast.Call) and isinstance(n.func, ast.Attribute) and n.func.attr in ("setdefault", "update", "pop", "popitem", "clear") and isinstance(n.func.value, ast.Attribute) and n.func.value.attr == "jump_insts":
+                wr = n
+            if wr is None:
+                continue
+            key = "jump table writer: " + A.alpha_key(wr)
+            if fn.cls is fi and fn.name == "_add_jump_inst" and isinstance(wr, ast.Assign):
+                out.append(ok("TABLE-7", fn.qualname, key, ctx.where(fn, wr), "the one writer of the jump table", nontrivial=False))
+            else:
+                out.append(bad("TABLE-7", fn.qualname, key, ctx.where(fn, wr), f"{A.unparse(wr)[:60]} writes the jump table outside _add_jump_inst: the targets recorded there are not registered as block starts"))
+    return out
+
+
+@rule("TABLE-8", 2, "the instruction stream that is analysed is the canonical listing of the code object: no disassembly in the library asks for the adaptive (specialised, process-history dependent) form or for cache entries, and the listing handed to the flow analysis is the one stored with the graph")
+def table8(ctx) -> List[Ob]:
+    out: List[Ob] = []
+    prog = ctx.prog
+    n = 0
+    for fn in prog.functions:
+        for c in A.walk_no_nested(fn.node):
+            if not (isinstance(c, ast.Call) and (A.dotted(c.func) or "") in ("dis.Bytecode", "dis.get_instructions", "Bytecode", "get_instructions", "dis.dis", "dis.disassemble")):
+                continue
+            n += 1
+            key = "disassembly: " + A.alpha_key(c)
+            where = ctx.where(fn, c)
+            flags = [k for k in c.keywords if k.arg in ("adaptive", "show_caches") and not (isinstance(k.value, ast.Constant) and k.value.value is False)]
+            star = [k for k in c.keywords if k.arg is None]
+            if flags:
+                out.append(bad("TABLE-8", fn.qualname, key, where, f"{A.unparse(c)[:70]} asks for {', '.join(k.arg for k in flags)}: the adaptive listing shows opcodes specialised by earlier calls of the function (FOR_ITER_RANGE ..) that the opcode tables do not know, cache entries are not instructions - the graph depends on the history of the process"))
+            elif star:
+                out.append(unresolved("TABLE-8", fn.qualname, key, where, "keyword arguments of the disassembly are not visible (**kwargs)"))
+            else:
+                out.append(ok("TABLE-8", fn.qualname, key, where, "canonical listing (no adaptive / cache flags)"))
+    if n < 1:
+        raise AnalysisError("TABLE-8: no disassembly call found in the library")
+    bf = prog.cls("ByteFlow").find_method("from_bytecode")
+    if bf is None:
+        raise AnalysisError("ByteFlow.from_bytecode not found")
+    from .common import see_through
+
+    key = "analysed listing = stored listing"
+    fcalls = [c for c in A.walk_no_nested(bf.node) if isinstance(c, ast.Call) and (A.dotted(c.func) or "").endswith("FlowInfo.from_bytecode") and c.args]
+    ctors = [c for c in A.walk_no_nested(bf.node) if isinstance(c, ast.Call) and (A.dotted(c.func) or "").split(".")[-1] in ("ByteFlow", "cls")]
+    stored = [kw(c, "bc", 0) for c in ctors]
+    stored = [s for s in stored if s is not None]
+    if not fcalls or not stored:
+        out.append(unresolved("TABLE-8", bf.qualname, key, ctx.where(bf), "cannot see the listing handed to FlowInfo.from_bytecode and the one stored in the ByteFlow"))
+    else:
+        a = see_through(ctx, bf, fcalls[0].args[0]) or fcalls[0].args[0]
+        b = see_through(ctx, bf, stored[0]) or stored[0]
+        if A.unparse(fcalls[0].args[0]) == A.unparse(stored[0]) or a is b:
+            out.append(ok("TABLE-8", bf.qualname, key, ctx.where(bf, fcalls[0]), f"both are {A.unparse(stored[0])}"))
+        else:
+            out.append(bad("TABLE-8", bf.qualname, key, ctx.where(bf, fcalls[0]), f"the flow analysis reads {A.unparse(fcalls[0].args[0])[:40]} but the ByteFlow stores {A.unparse(stored[0])[:40]}: block offsets and the stored instructions can disagree"))
+    return out
